@@ -8,8 +8,8 @@ import (
 	"fmt"
 	control "github.com/longportapp/openapi-protobufs/gen/go/control"
 	"net"
-	"os"
 	"net/url"
+	"os"
 	"strings"
 	"sync"
 	"sync/atomic"
